@@ -1,2 +1,45 @@
-(** C11 - placeholder *)
-From VG Require Import Model.Serve.
+(** C11 - No input from client or backend can crash or wedge the transcoder.
+    Statements only; proofs in Proofs/NoPanicProofs.v, Proofs/ResponseProofs.v, Proofs/StatusProofs.v,
+    Proofs/TemplateProofs.v.
+
+    In the model a Go panic is a value ([WPanic]: writing to a nil sink, calling a nil enveloper,
+    dereferencing a nil respMeta, running a loop out of its bound; [None] for an index out of
+    range), so "does not panic" is a theorem.  Every model function is total, which is what
+    "returns once both peers have stopped" amounts to for the modelled code; goroutine scheduling
+    and blocking I/O are outside the model (the check exercises them with the real code). *)
+From VG Require Import Model.Bytes Model.Headers Model.RespMeta Model.Response Model.Request Model.Serve Model.Status Gen.Generated.
+From VG Require Import Proofs.ResponseProofs Proofs.NoPanicProofs Proofs.StatusProofs.
+Open Scope Z_scope.
+
+(** Whatever the backend's handler does with its ResponseWriter (any headers, any status, any
+    bytes in any segmentation, writes after the end, nothing at all) and wherever the request side
+    fails meanwhile, the response side does not panic ... *)
+Theorem C11_response_side_never_panics : forall cx h s r wr res,
+  serve_response cx h s = (r, wr, res) -> res <> WPanic.
+Proof. exact serve_response_never_panics. Qed.
+Print Assumptions C11_response_side_never_panics.
+
+(** ... and the client's connection sees one head and then a body a standard HTTP stack can
+    frame: writes and flushes, at most one end, nothing but flushes after it. *)
+Theorem C11_one_head_then_framable_body : forall cx h s r wr res,
+  serve_response cx h s = (r, wr, res) ->
+  exists code hd eh body tail fl,
+    c_out (r_core r) = DHead code hd eh :: body ++ tail ++ DDone :: fl /\
+    forallb (fun e => negb (is_head e) && negb (is_term e) && negb (is_done e)) body = true /\
+    (tail = [] \/ exists t, is_term t = true /\ tail = [t]) /\ forallb is_flush fl = true.
+Proof. intros cx h s r wr res H. eapply finished_response_shape; [exact H|]. eapply serve_response_never_panics; eauto. Qed.
+Print Assumptions C11_one_head_then_framable_body.
+
+(** While the handler is still running - also if it never returns - the same discipline holds. *)
+Theorem C11_discipline_at_every_step : forall cx s h r wr,
+  run_script cx s (rw_init h) [] = (r, wr) -> Forall (fun x => x <> WPanic) wr /\ orun S0 (c_out (r_core r)) = Some (st_of (r_core r)).
+Proof.
+  intros cx s h r wr H. destruct (run_script_np cx s _ _ _ _ (RwNP_init cx h) (Forall_nil _) H) as (FW & ((HI & _) & _)).
+  split; [exact FW|]. apply HI.
+Qed.
+Print Assumptions C11_discipline_at_every_step.
+
+(** Every numeric status a backend can send has an HTTP status (no index out of range). *)
+Theorem C11_status_mapping_total : forall code, 0 <= code -> http_status_from_rpc code = Some (spec_http_of_rpc code).
+Proof. exact status_total. Qed.
+Print Assumptions C11_status_mapping_total.
